@@ -20,6 +20,16 @@ import adcio                                    # noqa: E402
 rng = random.Random(spec["history_seed"])
 
 
+def _spin_contraction(spin, names=("ga", "gb")):
+    """sum_k ga_k gb_k over an occupied index of the given spin, contracted
+    index replaced by a fresh generic one"""
+    from adcgen.sympy_objects import NonSymmetricTensor
+    k = get_symbols("k", spin)[0]
+    e = Expr(NonSymmetricTensor(names[0], (k,))
+             * NonSymmetricTensor(names[1], (k,)))
+    return e.substitute_with_generic()
+
+
 def prior_calls(n):
     """perturb the global registry counters and fill caches in random order"""
     gs = adcgen.GroundState(adcgen.Operators())
@@ -41,7 +51,19 @@ def prior_calls(n):
         lambda: gs.amplitude(1, "pphh", "ijab"),
         lambda: m.isr_matrix_block(rng.randint(0, 1), "ph,ph", "ia,jb"),
         lambda: isr.precursor(1, "ph", "ket", "ia"),
+        # spin-labelled generic indices (spatial-orbital expressions): the
+        # alpha and beta pools advance independently
+        lambda: Indices().get_generic_indices(
+            **{rng.choice(["occ_a", "occ_b", "virt_a", "virt_b"]):
+               rng.randint(1, 4)}),
+        lambda: Indices().get_generic_indices(occ_a=rng.randint(1, 3),
+                                              occ_b=rng.randint(1, 3)),
+        lambda: Indices().get_generic_indices(
+            **{rng.choice(["occ_a", "occ_b"]): 1}),
+        lambda: _spin_contraction(rng.choice("ab")),
     ]
+    if spec.get("acts") == "spin":
+        acts = acts[-4:]
     for _ in range(n):
         rng.choice(acts)()
 
@@ -81,6 +103,13 @@ def requests():
     i_, a_ = get_symbols("ia")
     out["amplitude_2_ph_pool_names"] = (e_pool.xreplace({so: i_, sv: a_}),
                                         "ia")
+    # products of independently generated spin-labelled contractions: fresh
+    # generic indices must be distinct whatever mixed alpha/beta requests
+    # came before
+    for spin in "ab":
+        fs = [_spin_contraction(spin) for _ in range(3)]
+        prod = fs[0].sympy * fs[1].sympy * fs[2].sympy
+        out[f"spin_contractions_{spin}"] = (prod, "")
     # wavefunctions requested repeatedly never share contracted indices
     p1 = gs.psi(2, "ket")
     p2 = gs.psi(2, "ket")
